@@ -20,6 +20,7 @@ tier: B
 bound: all strings of length <= 6 over {a,r,c,1,2,.,-}
 unwind: 7
 backend: sat
+native: self
 flags: --max-field-sensitivity-array-size 200
 */
 /*@unit
@@ -31,6 +32,7 @@ tier: B
 bound: all shape-compatible pairs of strings of length <= 4 over {a,r,c,1,2,.,-}
 unwind: 5
 backend: sat
+native: self
 flags: --max-field-sensitivity-array-size 200
 */
 /*@unit
@@ -42,6 +44,7 @@ tier: B
 bound: all shape-compatible pairs of strings of length <= 4 over {a,r,c,1,2,.,-}
 unwind: 5
 backend: sat
+native: self
 flags: --max-field-sensitivity-array-size 200
 */
 /* the same two lemmas up to length 6: 8 minutes each, thorough tier only */
@@ -54,6 +57,7 @@ tier: B
 bound: all shape-compatible pairs of strings of length <= 6 over {a,r,c,1,2,.,-}
 unwind: 7
 backend: sat
+native: self
 flags: --max-field-sensitivity-array-size 200
 quick: no
 timeout: 1200
@@ -67,6 +71,7 @@ tier: B
 bound: all shape-compatible pairs of strings of length <= 6 over {a,r,c,1,2,.,-}
 unwind: 7
 backend: sat
+native: self
 flags: --max-field-sensitivity-array-size 200
 quick: no
 timeout: 1200
@@ -80,6 +85,7 @@ tier: B
 bound: all shape-incompatible pairs of strings of length <= 3 over {a,r,c,1,2,.,-}
 unwind: 7
 backend: sat
+native: self
 flags: --max-field-sensitivity-array-size 200
 */
 /*@unit
@@ -91,6 +97,7 @@ tier: B
 bound: all shape-incompatible pairs of strings of length <= 3 over {a,r,c,1,2,.,-}
 unwind: 7
 backend: sat
+native: self
 flags: --max-field-sensitivity-array-size 200
 */
 #define VERIF_OWN_STRCMP
@@ -105,17 +112,15 @@ flags: --max-field-sensitivity-array-size 200
 #define ENS(c) __CPROVER_assert((c), "C17 lemma: " #c)
 static const char alphabet[7] = { 'a', 'r', 'c', '1', '2', '.', '-' };
 
-static void pick(char *s)
-{
-    unsigned n = nondet_uchar(), i;
-    __CPROVER_assume(n <= MAXN);
-    for (i = 0; i < MAXN; i++) {
-        unsigned char x = nondet_uchar();
-        __CPROVER_assume(x < 7);
-        s[i] = alphabet[x];
-    }
-    s[n] = 0;
-}
+/* one string: length and one alphabet index per position, taken with VND in harness() so that the native
+ * replay (-DVERIF_NATIVE, real libc, real stack contents) sees the verifier's strings */
+#define PICK(s, L, X0, X1, X2, X3, X4, X5) do { \
+    unsigned pk_n = (unsigned) VND(uchar, L), pk_x[6], pk_i; \
+    __CPROVER_assume(pk_n <= MAXN); \
+    pk_x[0] = (unsigned) VND(uchar, X0); pk_x[1] = (unsigned) VND(uchar, X1); pk_x[2] = (unsigned) VND(uchar, X2); \
+    pk_x[3] = (unsigned) VND(uchar, X3); pk_x[4] = (unsigned) VND(uchar, X4); pk_x[5] = (unsigned) VND(uchar, X5); \
+    for (pk_i = 0; pk_i < MAXN; pk_i++) { __CPROVER_assume(pk_x[pk_i] < 7); (s)[pk_i] = alphabet[pk_x[pk_i]]; } \
+    (s)[pk_n] = 0; } while (0)
 static int cls(char c) { return (c >= 'a' && c <= 'z') ? 1 : ((c >= '0' && c <= '9') ? 2 : 3); }
 /* one run-class sequence is a prefix of the other */
 static int compatible(const char *a, const char *b)
@@ -133,7 +138,8 @@ static int compatible(const char *a, const char *b)
 void harness(void)
 {
     char a[MAXN + 1], b[MAXN + 1];
-    pick(a); pick(b);
+    PICK(a, la, a0, a1, a2, a3, a4, a5);
+    PICK(b, lb, b0, b1, b2, b3, b4, b5);
     libast_debug_level = 0;
 #ifdef U_COMPAT
     __CPROVER_assume(compatible(a, b));
